@@ -6,3 +6,4 @@ CONSTANTS
   Level = 2
   MaxLen = 2
   MaxIter = 3
+  Pre = 1
